@@ -1,13 +1,19 @@
 package main
 
 import (
+	"bytes"
+	"crypto"
 	"crypto/sha256"
 	"encoding/binary"
 	"fmt"
+	"math/big"
 
 	"circlsim/core"
+	"circlsim/fixtures"
 
 	"github.com/cloudflare/circl/abe/cpabe/tkn20"
+	"github.com/cloudflare/circl/blindsign/blindrsa"
+	"github.com/cloudflare/circl/blindsign/blindrsa/partiallyblindrsa"
 	bls12381 "github.com/cloudflare/circl/ecc/bls12381"
 	"github.com/cloudflare/circl/group"
 	"github.com/cloudflare/circl/hpke"
@@ -215,3 +221,112 @@ func coldFam() famDef {
 }
 
 var _ = fmt.Sprint
+
+// blindFam: one blind-RSA client / verifier / signer set shared by several callers (they wrap
+// a key and look read-only): blinding different messages, verifying, blind-signing.
+func blindFam() famDef {
+	return famDef{name: "blindrsa", kinds: []string{"pb.blind", "pb.blind", "pb.verify", "pb.sign", "blind", "verify", "sign"}, build: func(seed uint64) *shared {
+		key := fixtures.RSAKey("safe-1024-a")
+		N := key.N
+		pv := partiallyblindrsa.NewVerifier(&key.PublicKey, crypto.SHA384)
+		ps, err := partiallyblindrsa.NewSigner(key, crypto.SHA384)
+		if err != nil {
+			panic("HARNESS: pbrsa.NewSigner: " + err.Error())
+		}
+		meta := []byte("metadata")
+		pr := core.NewPRNG(seed)
+		blindOf := func(a uint64) (r, rInv []byte) {
+			q := core.NewPRNG(seed + 50 + a)
+			for {
+				x := new(big.Int).SetBytes(q.Bytes(len(N.Bytes())))
+				x.Mod(x, N)
+				if inv := new(big.Int).ModInverse(x, N); inv != nil && x.Sign() != 0 {
+					return x.Bytes(), inv.Bytes()
+				}
+			}
+		}
+		longMsg := func(a uint64) []byte { return bytes.Repeat(msgOf(a), 40) }
+		// a finished partially blind signature and a blinded message, made before the tasks run
+		salt0 := pr.Bytes(48)
+		r0, ri0 := blindOf(99)
+		bm0, st0, err := pv.FixedBlind(longMsg(0), meta, salt0, r0, ri0)
+		if err != nil {
+			panic("HARNESS: FixedBlind: " + err.Error())
+		}
+		bs0, err := ps.BlindSign(bm0, meta)
+		if err != nil {
+			panic("HARNESS: BlindSign: " + err.Error())
+		}
+		sig0, err := st0.Finalize(bs0)
+		if err != nil {
+			panic("HARNESS: Finalize: " + err.Error())
+		}
+		// plain variant
+		cl, err := blindrsa.NewClient(blindrsa.SHA384PSSDeterministic, &key.PublicKey)
+		if err != nil {
+			panic("HARNESS: NewClient")
+		}
+		sg := blindrsa.NewSigner(key)
+		cbm0, cst0, err := cl.Blind(core.NewStream(seed+7), longMsg(0))
+		if err != nil {
+			panic("HARNESS: Blind")
+		}
+		cbs0, err := sg.BlindSign(cbm0)
+		if err != nil {
+			panic("HARNESS: BlindSign")
+		}
+		csig0, err := cl.Finalize(cst0, cbs0)
+		if err != nil {
+			panic("HARNESS: Finalize")
+		}
+		return &shared{ops: map[string]func(uint64) []byte{
+			"pb.blind": func(a uint64) []byte {
+				r, ri := blindOf(a)
+				bm, st, err := pv.FixedBlind(longMsg(a), meta, core.NewPRNG(seed+60+a).Bytes(48), r, ri)
+				if err != nil {
+					return []byte("err: " + err.Error())
+				}
+				bs, err := ps.BlindSign(bm, meta)
+				if err != nil {
+					return []byte("sign-err: " + err.Error())
+				}
+				sig, err := st.Finalize(bs)
+				if err != nil {
+					return []byte("finalize-err: " + err.Error())
+				}
+				return append(bm[:16:16], sig[:16]...)
+			},
+			"pb.verify": func(uint64) []byte { return b2(pv.Verify(longMsg(0), meta, sig0) == nil) },
+			"pb.sign": func(uint64) []byte {
+				bs, err := ps.BlindSign(bm0, meta)
+				if err != nil {
+					return []byte("err")
+				}
+				return bs
+			},
+			"blind": func(a uint64) []byte {
+				bm, st, err := cl.Blind(core.NewStream(seed+70+a), longMsg(a))
+				if err != nil {
+					return []byte("err")
+				}
+				bs, err := sg.BlindSign(bm)
+				if err != nil {
+					return []byte("sign-err")
+				}
+				sig, err := cl.Finalize(st, bs)
+				if err != nil {
+					return []byte("finalize-err: " + err.Error())
+				}
+				return append(bm[:16:16], sig[:16]...)
+			},
+			"verify": func(uint64) []byte { return b2(cl.Verify(longMsg(0), csig0) == nil) },
+			"sign": func(uint64) []byte {
+				bs, err := sg.BlindSign(cbm0)
+				if err != nil {
+					return []byte("err")
+				}
+				return bs
+			},
+		}}
+	}}
+}
